@@ -362,7 +362,29 @@ def twin_same_value(interp, func, args, kwargs):
     return sym.b_and(r, True if tv.eq(tw) else (tv == tw))
 
 
+def abs_set_ansi_str(interp, func, args, kwargs):
+    """set_ansi_str on a text without ESC, in the abstract world: the text itself and the (abstract) empty table"""
+    r = summ_set_ansi_str(interp, func, args, kwargs)
+    if r is NotImplemented:
+        return r
+    c = ctx()
+    ab.install(c)
+    self_ = args[0]
+    ab.empty_wf(c, sym.s_len(self_.attrs['_s']))
+    self_.attrs['_fmts'] = ab.AbsTbl(ab.EMPTY)
+    return None
+
+
+def twin_separate(interp, func, args, kwargs):
+    v, w = args
+    if not (ab.is_abstract(v) or ab.is_abstract(w)):
+        return NotImplemented
+    return v is not w and v.attrs['_fmts'] is not w.attrs['_fmts']
+
+
 MODULAR['ABS'] = {
+    'separate': twin_separate,
+    'eq_value': twin_same_value,
     'AnsiString.__getitem__': abs_getitem,
     'AnsiString.__iadd__': abs_iadd,
     'AnsiString.__init__': abs_init,
@@ -409,6 +431,16 @@ def _encode_arg(interp, v):
         return _encode_arg(interp, v.attrs['_s'])
     if v is None or isinstance(v, bool) or sym.is_int(v) or sym.is_bool(v) or sym.is_str(v):
         return bm._arg_term(interp, v)
+    if isinstance(v, (PList, tuple)):
+        items = v.items if isinstance(v, PList) else v
+        out = [z3.IntVal(len(items) if isinstance(v, tuple) else -1 - len(items))]
+        for x in items:
+            out.extend(_encode_arg(interp, x))
+        return out
+    if isinstance(v, PObj) and v.cls == 'AnsiSetting':
+        return [z3.Function('any_setting', bm.STRSORT, ab.ANY)(bm.str_term(v.attrs['_str']))]
+    if isinstance(v, sym.PSlice):
+        return _encode_arg(interp, (v.start, v.stop, v.step))
     return [ab.any_term(v)]
 
 
@@ -518,6 +550,9 @@ class _GenericTable(dict):
 
 
 MODULAR['GENERIC'] = {
+    'AnsiString.set_ansi_str': abs_set_ansi_str,
+    'separate': twin_separate,
+    'eq_value': twin_same_value,
     'AnsiString.__init__': abs_init,
     'AnsiString.to_str': abs_to_str,
     'view_texts': twin_view_texts,
